@@ -155,6 +155,13 @@ func c11Run(c *mon.Case, content string, k int, ops string) bool {
 			m.unread()
 			m.unread()
 			what = "after multi-unread"
+		case 'I', 'J', 'K', 'L', 'N', 'O', 'P', 'Q':
+			n := 9 + int(ops[i]-'I')
+			s.UnreadMany(n)
+			for k := 0; k < n; k++ {
+				m.unread()
+			}
+			what = "after multi-unread of 9..17 characters"
 		case 'A', 'B', 'C', 'D', 'E', 'F', 'G', 'H':
 			n := 33 + int(ops[i]-'A')
 			s.UnreadMany(n)
@@ -179,16 +186,21 @@ func c11Run(c *mon.Case, content string, k int, ops string) bool {
 func c11BigContent(spec string) string {
 	var n, variant int
 	fmt.Sscanf(spec, "gen:%d:%d", &n, &variant)
-	if variant >= 100 { // one line of n-40 letters, its line break (LF, CR, CRLF, LFCR by variant), then short lines
+	if variant >= 100 && variant < 200 { // one line of n-40 letters, its line break (LF, CR, CRLF, LFCR by variant), then short lines
 		brk := []string{"\n", "\r", "\r\n", "\n\r"}[variant%4]
 		return strings.Repeat("w", n-40) + brk + strings.Repeat("ab\n", 20)[:40-len(brk)]
+	}
+	if variant >= 200 { // ASCII up to a few characters before 65 536 bytes, then 2-, 3- and 4-byte characters across the boundary
+		return strings.Repeat("a", 65527+variant-200) + "\u20ac\U0001F600\u00e9\u20ac\u0448\U0001F600" + strings.Repeat("b\u20ac", 20)
 	}
 	pats := []string{"\n", "\r", "\r\n", "\n\r", "\n\n", "\r\r"}
 	var b strings.Builder
 	b.Grow(n + 32)
-	for line := 0; b.Len() < n; line++ {
-		b.WriteString("abcdefghijklmnopqrstuvwxyz"[:(line*7+variant*3)%20])
-		b.WriteString(pats[(line+variant)%len(pats)])
+	x := uint32(variant*2654435761 + 12345)
+	for b.Len() < n { // line lengths and break styles in a scrambled order, so that every style follows every other
+		x = x*1664525 + 1013904223
+		b.WriteString("abcdefghijklmnopqrstuvwxyz"[:(x>>8)%20])
+		b.WriteString(pats[(x>>16)%uint32(len(pats))])
 	}
 	return b.String()[:n]
 }
@@ -518,6 +530,7 @@ func buildC11(cfg *mon.Config) []*mon.Sub {
 	huge := &mon.Sub{
 		Name: "contents-beyond-65535-characters", Rule: "generated contents of 65 535, 65 536, 65 537, 70 000 and 131 073 characters made of lines of 0..19 letters (blank lines are frequent) ended by LF, CR, CRLF, LFCR, LF LF and CR CR in rotation - plus contents that begin with one line of 65 535 and more letters (its line break in each of the four styles is un-read), and contents of more than 2^20 characters with line breaks un-read in the second half: read to the end, un-read 1500 characters one by one, re-read, jump back in blocks of 33..40 and of 2 and 3, reset, read 3000 and un-read 700; the model compared after every operation; a case is one content",
 		Exhaustive: true, DistinctByGen: true, Floor: 5,
+		Batch: 1,
 		Gen: func(emit func(string)) {
 			sizes := []int{65535, 65536, 65537, 70000}
 			if !cfg.Quick() {
@@ -540,6 +553,12 @@ func buildC11(cfg *mon.Config) []*mon.Sub {
 					emit(c11Payload(fmt.Sprintf("gen:%d:%d", n, variant), 0, ops))
 				}
 			}
+			// multi-byte characters across the 65 536th byte
+			for variant := 200; variant < 212; variant++ {
+				content := c11BigContent(fmt.Sprintf("gen:0:%d", variant))
+				n := len([]rune(content))
+				emit(c11Payload(fmt.Sprintf("gen:0:%d", variant), 0, strings.Repeat("r", n+1)+strings.Repeat("u", 80)+strings.Repeat("r", 81)+"R"+strings.Repeat("r", 20)))
+			}
 			// beyond 2^20 characters, un-reading line breaks in the second half
 			for variant := 0; variant < cfg.N(2, 6); variant++ {
 				n := 1<<20 + 1000 + variant
@@ -552,6 +571,7 @@ func buildC11(cfg *mon.Config) []*mon.Sub {
 	volume := &mon.Sub{
 		Name: "many-scanners-over-distinct-contents", Rule: fmt.Sprintf("%d scanners, one after the other and on all shards at once, each over its own random 15-character content (10 letters, LF, 4 letters; all of the same length): every read must return that content's characters and the final position must be line 2, column 4 - whatever earlier or concurrent scanners in the process were created over; every 5003rd scanner is read half, set aside while the next 5003 come and go, then read to its end and reset (a volume at which anything shared between scanners and keyed by less than the whole text shows)", 16*cfg.N(2000000, 20000000)),
 		Exhaustive: true, DistinctByGen: true, Floor: 16,
+		Batch: 1,
 		Gen: func(emit func(string)) {
 			rio.VerifScannerHook = nil // hook H2 keeps a table per content: switched off for this volume run (sub-checks run one after the other)
 			for i := 0; i < 16; i++ {
@@ -614,5 +634,23 @@ func buildC11(cfg *mon.Config) []*mon.Sub {
 			c.AddEvals(count-1, count)
 		},
 	}
-	return []*mon.Sub{exh, rnd, hooked, sweeps, invalid, huge, volume}
+	tail := &mon.Sub{
+		Name: "multi-unread-on-the-last-line", Rule: "contents of 0..2 short lines followed by a last line of 10..45 characters (ended or not by a line break of each style): read to the end-of-input slot and one read further, then UnreadMany(n) for every n in 9..17 and 33..40 that stays inside the last line and for some that leave it, re-reading to the end in between; the model compared after every operation",
+		Exhaustive: true, DistinctByGen: true, Floor: 500,
+		Gen: func(emit func(string)) {
+			for _, head := range []string{"", "ab\n", "ab\r\ncd\r", "\n\r"} {
+				for l := 10; l <= 45; l += 5 {
+					for _, end := range []string{"", "\n", "\r", "\r\n"} {
+						content := head + strings.Repeat("x", l) + end
+						n := len([]rune(content))
+						for _, op := range "IJKLNOPQABCDEFGH" {
+							emit(c11Payload(content, 0, strings.Repeat("r", n+2)+string(op)+strings.Repeat("r", 60)+string(op)+"r"))
+						}
+					}
+				}
+			}
+		},
+		Exec: c11Exec(0),
+	}
+	return []*mon.Sub{exh, rnd, hooked, sweeps, invalid, huge, tail, volume}
 }
